@@ -25,19 +25,17 @@ type backendSpec struct {
 	prelude func(timeoutMs int) string
 }
 
+// NOTE: z3 4.8.12 returns wrong answers ("unsat" for satisfiable queries) when
+// (set-option :timeout N) is issued after assertions were made in the session.
+// Time-outs are therefore fixed per process on the command line (-t:ms) and no
+// option is ever changed mid-session; the short first attempt is a separate z3
+// process ("z3q").
 var backendSpecs = map[string]backendSpec{
-	"z3": {"z3", []string{"z3", "-in"}, func(ms int) string {
-		return fmt.Sprintf("(set-option :timeout %d)\n", ms)
-	}},
-	"z3-new": {"z3-new", []string{"z3-new", "-in"}, func(ms int) string {
-		return fmt.Sprintf("(set-option :timeout %d)\n", ms)
-	}},
-	"cvc5": {"cvc5", []string{"cvc5", "--incremental", "--produce-models", "--lang=smt2"}, func(ms int) string {
-		return "(set-logic QF_BV)\n"
-	}},
-	"cvc5-int": {"cvc5-int", []string{"cvc5", "--incremental", "--produce-models", "--lang=smt2", "--solve-bv-as-int=sum"}, func(ms int) string {
-		return "(set-logic ALL)\n"
-	}},
+	"z3":       {"z3", []string{"z3", "-in"}, func(ms int) string { return "" }},
+	"z3q":      {"z3q", []string{"z3", "-in"}, func(ms int) string { return "" }},
+	"z3-new":   {"z3-new", []string{"z3-new", "-in"}, func(ms int) string { return "" }},
+	"cvc5":     {"cvc5", []string{"cvc5", "--incremental", "--produce-models", "--lang=smt2"}, func(ms int) string { return "(set-logic QF_BV)\n" }},
+	"cvc5-int": {"cvc5-int", []string{"cvc5", "--incremental", "--produce-models", "--lang=smt2", "--solve-bv-as-int=sum"}, func(ms int) string { return "(set-logic ALL)\n" }},
 }
 
 type backend struct {
@@ -66,6 +64,8 @@ func startBackend(kind string, timeoutMs int) (*backend, error) {
 	argv := append([]string{}, spec.argv...)
 	if strings.HasPrefix(kind, "cvc5") {
 		argv = append(argv, fmt.Sprintf("--tlimit-per=%d", timeoutMs))
+	} else {
+		argv = append(argv, fmt.Sprintf("-t:%d", timeoutMs))
 	}
 	cmd := exec.Command(argv[0], argv[1:]...)
 	in, err := cmd.StdinPipe()
@@ -164,10 +164,6 @@ func (r checkResult) String() string {
 // non-nil and the result is sat, values for those variables are returned.
 func (b *backend) check(extra *Term, wantModel []*Term, timeoutMs int) (checkResult, map[string]uint64, string) {
 	start := time.Now()
-	if timeoutMs > 0 && timeoutMs != b.curTimeout && strings.HasPrefix(b.spec.name, "z3") {
-		fmt.Fprintf(&b.buf, "(set-option :timeout %d)\n", timeoutMs)
-		b.curTimeout = timeoutMs
-	}
 	var ref string
 	if extra != nil {
 		ref = b.em.ref(extra)
@@ -239,6 +235,12 @@ func (b *backend) check(extra *Term, wantModel []*Term, timeoutMs int) (checkRes
 		b.nunsat++
 	default:
 		b.nunknown++
+		// After a timed-out / cancelled check z3 4.8.12's incremental state can be
+		// corrupted: later queries in the same session were observed to return
+		// "unsat" for satisfiable problems. A back end that answered unknown is
+		// therefore discarded; the next query starts a fresh process and replays
+		// the path's assertion log.
+		b.dead = true
 	}
 	b.seconds += time.Since(start).Seconds()
 	return res, model, note
@@ -356,6 +358,7 @@ type Solver struct {
 	crossDis  int
 	crossN    int
 	quickMs   int
+	retired   map[string]*solverStats
 }
 
 var globalSolverStats = map[string]*solverStats{}
@@ -371,14 +374,35 @@ func (s *Solver) get(kind string) *backend {
 		return b
 	}
 	if b != nil {
+		s.retire(kind, b)
 		b.close()
 	}
-	nb, err := startBackend(kind, s.timeoutMs)
+	ms := s.timeoutMs
+	if kind == "z3q" {
+		ms = s.quickMs
+	}
+	nb, err := startBackend(kind, ms)
 	if err != nil {
 		return nil
 	}
 	s.backends[kind] = nb
 	return nb
+}
+
+func (s *Solver) retire(kind string, b *backend) {
+	if s.retired == nil {
+		s.retired = map[string]*solverStats{}
+	}
+	st := s.retired[kind]
+	if st == nil {
+		st = &solverStats{}
+		s.retired[kind] = st
+	}
+	st.Queries += b.queries
+	st.Sat += b.nsat
+	st.Unsat += b.nunsat
+	st.Unknown += b.nunknown
+	st.Seconds += b.seconds
 }
 
 func (s *Solver) Close() {
@@ -426,16 +450,17 @@ func (s *Solver) Check(extra *Term, wantModel []*Term) (checkResult, map[string]
 		ms   int
 	}
 	var stages []stage
-	for i, kind := range s.order {
-		if i == 0 && len(s.order) > 1 && s.quickMs > 0 {
-			// a short first attempt on the primary, the full time-out later
-			stages = append(stages, stage{kind, s.quickMs})
-			continue
+	if len(s.order) > 1 && s.quickMs > 0 && s.order[0] == "z3" {
+		// a short first attempt on a separate z3 process, the full time-out later
+		stages = append(stages, stage{"z3q", s.quickMs})
+		for _, kind := range s.order[1:] {
+			stages = append(stages, stage{kind, s.timeoutMs})
 		}
-		stages = append(stages, stage{kind, s.timeoutMs})
-	}
-	if len(s.order) > 1 && s.quickMs > 0 {
-		stages = append(stages, stage{s.order[0], s.timeoutMs})
+		stages = append(stages, stage{"z3", s.timeoutMs})
+	} else {
+		for _, kind := range s.order {
+			stages = append(stages, stage{kind, s.timeoutMs})
+		}
 	}
 	for _, st := range stages {
 		kind := st.kind
@@ -464,10 +489,34 @@ func (s *Solver) Check(extra *Term, wantModel []*Term) (checkResult, map[string]
 	return resUnknown, nil, strings.Join(notes, "; ")
 }
 
+// CrossCheck re-decides sat(log ∧ extra) on an independent back end and records a
+// disagreement with the given primary result.
+func (s *Solver) CrossCheck(kind string, extra *Term, primary checkResult) {
+	b := s.get(kind)
+	if b == nil {
+		return
+	}
+	s.sync(b)
+	r2, _, _ := b.check(extra, nil, s.timeoutMs)
+	s.crossN++
+	if r2 != resUnknown && r2 != primary {
+		s.crossDis++
+	}
+}
+
 func (s *Solver) Stats() map[string]solverStats {
 	r := map[string]solverStats{}
 	for k, b := range s.backends {
 		r[k] = solverStats{b.queries, b.nsat, b.nunsat, b.nunknown, b.seconds}
+	}
+	for k, st := range s.retired {
+		x := r[k]
+		x.Queries += st.Queries
+		x.Sat += st.Sat
+		x.Unsat += st.Unsat
+		x.Unknown += st.Unknown
+		x.Seconds += st.Seconds
+		r[k] = x
 	}
 	return r
 }
